@@ -152,6 +152,16 @@ func (w *World) verifyFunction(c *Contract) (res *FuncResult) {
 		}
 	}
 	vc.frameObligations(c, args, out)
+	// per-label solver budgets apply to every obligation that stems from a clause with that label
+	for lab, secs := range c.Raw.Slow {
+		for _, o := range vc.obls {
+			if strings.HasSuffix(o.Name, "."+lab) || strings.Contains(o.Name, "."+lab+".") {
+				if o.TimeoutMs < secs*1000 {
+					o.TimeoutMs = secs * 1000
+				}
+			}
+		}
+	}
 	return res
 }
 
